@@ -8,5 +8,7 @@ for f in interp calls norm main; do
   clang++ $CXXFLAGS -c $f.cc -o ../../build/irflow_$f.o &
 done
 wait
-clang++ ../../build/irflow_interp.o ../../build/irflow_calls.o ../../build/irflow_norm.o ../../build/irflow_main.o -o ../../build/irflow /usr/lib/llvm-14/lib/libLLVM-14.so
+# link to a temporary name and rename: a check that is running keeps the binary it started with
+clang++ ../../build/irflow_interp.o ../../build/irflow_calls.o ../../build/irflow_norm.o ../../build/irflow_main.o -o ../../build/irflow.new /usr/lib/llvm-14/lib/libLLVM-14.so
+mv -f ../../build/irflow.new ../../build/irflow
 echo built ../../build/irflow
